@@ -14,6 +14,8 @@ EXPLANATION = (
     "unreadable file surfaces as EnvironmentError (exit 3). (O18.4) the --until mapping is decided over the regions "
     "{< -1, -1, 0, > 0}: -1 means no limit, n >= 0 means n, anything else is a usage error (exit 2), and the value "
     "reaches the Reader. The programmatic side (what 'accepted by the API' means) is C04-C08's."
+    " Added in rounds 6 and 7: (O18.5) the argument parser declares two positionals of variable length and"
+    " therefore parses intermixed: options may stand between CID-FILE and DATA-FILE."
 )
 ASSUMPTIONS = ["argparse's own behaviour (type=int conversion, parser.error exits with status 2)"]
 
